@@ -575,8 +575,14 @@ func (w *World) Echo6(nic int, src, dst, msg []byte, firstLen int, likely bool) 
 	if firstLen >= len(msg) || firstLen <= 0 {
 		w.L[nic].Inject(header.IPv6ProtocolNumber, "", pkt)
 		firstLen = len(msg)
+	} else if rest := pkt[cut:]; len(rest) > 2 && w.r.R.Intn(2) == 0 {
+		// three views: the payload behind the first view is split once more, at any point
+		c2 := 1 + w.r.R.Intn(len(rest)-1)
+		w.L[nic].Inject(header.IPv6ProtocolNumber, "", pkt[:cut], rest[:c2], rest[c2:])
+		w.r.Count("echo6.three-views")
 	} else {
 		w.L[nic].Inject(header.IPv6ProtocolNumber, "", pkt[:cut], pkt[cut:])
+		w.r.Count("echo6.two-views")
 	}
 	res := w.collect(nic, likely)
 	w.emit(fmt.Sprintf("echo6 %d %s %s %s %d", nic, hx.Hex(src), hx.Hex(dst), hx.Hex(msg), firstLen), res)
@@ -643,7 +649,7 @@ func GenEcho(r *hx.Run) {
 				}
 				fl := 0
 				if len(msg) > 8 && r.R.Intn(3) == 0 {
-					fl = 8 + 2*r.R.Intn((len(msg)-8)/2+1) // even split: every non-final view has even length
+					fl = 8 + r.R.Intn(len(msg)-8+1) // any split point behind the echo header, odd ones included
 				}
 				own := string(dst) == string(v6a)
 				w.Echo6(1, v6r, dst, msg, fl, own && !weird)
